@@ -21,8 +21,7 @@ RULE = (
     "hash computations. Non-trivial = distinct cross-subclass pairs + distinct (object, churn) pairs for overridden __hash__."
 )
 ASSUMPTIONS = ["order on mesh-type patterns is only required to be a total order consistent with ==; for permutations it must be (length, lexicographic)"]
-REQUIRED = ["calls.MeshPatt.__hash__", "calls.BivincularPatt.__hash__", "calls.MeshPatt.__eq__", "calls.BivincularPatt.__eq__",
-            "calls.MeshPatt.__lt__", "hash.stable_checked", "eq.true_checked", "order.cross_subclass", "triples.checked",
+REQUIRED = ["calls.MeshPatt.__hash__", "calls.MeshPatt.__eq__", "calls.MeshPatt.__lt__", "hash.stable_checked", "eq.true_checked", "order.cross_subclass", "triples.checked",
             "churn.histories", "lookup.checked", "sorted.checked"]
 MIN_NONTRIVIAL = 500
 CTX = None
@@ -102,16 +101,15 @@ def setup(ctx):
     global CTX, MON
     CTX = ctx
     MON = m = monitor.Monitors(ctx)
-    m.wrap(MeshPatt, "__hash__", post_hash)
-    m.wrap(BivincularPatt, "__hash__", post_hash)
-    m.wrap(Basis, "__hash__", post_hash)
-    m.wrap(MeshBasis, "__hash__", post_hash)
-    m.wrap(MeshPatt, "__eq__", post_eq)
-    m.wrap(BivincularPatt, "__eq__", post_eq)
-    m.wrap(Basis, "__eq__", post_eq)
-    m.wrap(MeshBasis, "__eq__", post_eq)
-    for name in ("__lt__", "__le__", "__gt__", "__ge__"):
-        m.wrap(MeshPatt, name, post_order(name))
+    # wrap whatever each class defines itself (a refactoring may move __eq__/__hash__ up or down the hierarchy)
+    for cls in (MeshPatt, BivincularPatt, VincularPatt, CovincularPatt, Basis, MeshBasis):
+        if "__hash__" in cls.__dict__ and cls.__dict__["__hash__"] is not None:
+            m.wrap(cls, "__hash__", post_hash)
+        if "__eq__" in cls.__dict__:
+            m.wrap(cls, "__eq__", post_eq)
+        for name in ("__lt__", "__le__", "__gt__", "__ge__"):
+            if name in cls.__dict__ and cls not in (Basis, MeshBasis):
+                m.wrap(cls, name, post_order(name))
 
 
 def teardown(ctx):
